@@ -26,9 +26,10 @@ const (
 	maxFee = int64(1000000000)
 	t0     = int64(3000000000)
 	// tiered fee thresholds (types.MaxBlockSize = 20 000 000): bytes >= /100 -> 10x, >= /20 -> 100x
-	bytes10  = int64(200000)
-	bytes100 = int64(1000000)
-	maxTxNum = int64(40) // mver.consensus.maxTxNumber of the configuration: count >= 4 -> 10x, >= 20 -> 100x
+	bytes10    = int64(200000)
+	bytes100   = int64(1000000)
+	smallTxNum = int64(40) // mver.consensus.maxTxNumber for count-threshold cases: count >= 4 -> 10x, >= 20 -> 100x
+	bigTxNum   = int64(10000)
 )
 
 func init() { lib.RegisterChild("batch", runBatch) }
@@ -37,8 +38,9 @@ type batchIn struct {
 	Cases []caseIn
 }
 type caseIn struct {
-	Idx  int
-	Seed uint64
+	Idx     int
+	Seed    uint64
+	Special string // "expire-quirk": scripted minimal scenario for the member-header parse quirk
 }
 
 type viol struct {
@@ -66,6 +68,7 @@ type caseOut struct {
 
 // tierOf is the tiered-fee multiplier by the statement's rule, from ground truth (pool count and bytes).
 func tierOf(level bool, count int, bytes int64) int64 {
+	maxTxNum := curMaxTxNum
 	if !level {
 		return 1
 	}
@@ -77,6 +80,9 @@ func tierOf(level bool, count int, bytes int64) int64 {
 	}
 	return 1
 }
+
+// curMaxTxNum is the maxTxNumber of the case being run (cases run one after another inside a child).
+var curMaxTxNum = smallTxNum
 
 // member describes one transaction of the candidate.
 type member struct {
@@ -211,10 +217,22 @@ func (r *runner) submitMutant(clause, detail string, s spec, deciding bool, pre,
 		for k, v := range r.wit {
 			w[k] = v
 		}
-		r.out.Violations = append(r.out.Violations, viol{Shape: "admitted:" + clause,
+		shape := "admitted:" + clause
+		if clause == "expired" && len(ms) > 1 && headerParsesAsGroup(ms[0].Header) {
+			// a member's Header is the 32-byte hash of the head; here those bytes happen to be well-formed
+			// protobuf, so Transaction.IsExpire takes them for an (empty) encoded group
+			shape += ":member-header-parses-as-group"
+			w["head_hash"] = fmt.Sprintf("%x", ms[0].Header)
+		}
+		r.out.Violations = append(r.out.Violations, viol{Shape: shape,
 			Msg: fmt.Sprintf("%s: a %s whose clause [%s] is false (%s) entered the pool (reply ok=%v %q, in pool afterwards=%v)", r.out.Desc, r.out.Shape, clause, detail, ok, text, after[h]), Wit: w})
 		r.env.DelTxList([][]byte{[]byte(h)})
 	}
+}
+
+func headerParsesAsGroup(h []byte) bool {
+	var g types.Transactions
+	return len(h) == 32 && types.Decode(h, &g) == nil && len(g.Txs) < 2
 }
 
 func normErr(s string) string {
@@ -235,24 +253,27 @@ func runCase(in caseIn) *caseOut {
 	perAcc := rng.Range(1, 4)
 	level := rng.Chance(55)
 	H := int64(rng.Range(1, 3000))
+	if in.Special == "expire-quirk" {
+		return runQuirk(in, out)
+	}
 	out.LevelFee = level
-	env := mpenv.New(mpenv.Opts{PoolSize: 256, MaxPerAcc: int64(perAcc), MaxLast: 4, Queue: "simple", LevelFee: level, MaxTxNumber: maxTxNum, Height: H, BlockTime: t0})
+	// ---- pool state: fillers (count / byte thresholds of the tiered fee), a sender at its limit, an eth sender
+	targets := []int{0, 1, 2, 3, 4, 5, 9, 19, 20, 21, 26}
+	n0 := lib.Pick(rng, targets)
+	blobs := 0
+	curMaxTxNum = smallTxNum
+	if rng.Chance(25) {
+		// byte thresholds: ~100KB entries, count thresholds out of reach
+		blobs = lib.Pick(rng, []int{1, 2, 3, 3, 10, 11})
+		n0 = lib.Pick(rng, []int{0, 3, 8})
+		curMaxTxNum = bigTxNum
+	}
+	env := mpenv.New(mpenv.Opts{PoolSize: 256, MaxPerAcc: int64(perAcc), MaxLast: 4, Queue: "simple", LevelFee: level, MaxTxNumber: curMaxTxNum, Height: H, BlockTime: t0})
 	defer env.Close()
 	r := &runner{rng: rng, env: env, out: out, b: &builder{other: mpenv.NewKey("other", 0, false)}, nonce: int64(in.Idx) * 100000, wit: map[string]any{}}
 	blk0, blk1 := mpenv.NewKey("bl", 0, false), mpenv.NewKey("bl", 1, true)
 	valid := func(i int) string { return mpenv.NewKey("rcpt", i, i%3 == 2).Addr }
 
-	// ---- pool state: fillers (count / byte thresholds of the tiered fee), a sender at its limit, an eth sender
-	targets := []int{0, 1, 2, 3, 4, 5, 9, 19, 20, 21, 26}
-	n0 := lib.Pick(rng, targets)
-	blobs := 0
-	if rng.Chance(25) {
-		blobs = lib.Pick(rng, []int{2, 3, 3, 10, 11})
-		n0 = lib.Pick(rng, []int{0, 1, 3})
-		if blobs >= 10 {
-			n0 = 0
-		}
-	}
 	count, bytes := 0, int64(0)
 	admit := func(tx *types.Transaction, what string) bool {
 		ok, text, err := env.SendTx(tx)
@@ -441,10 +462,7 @@ func runCase(in caseIn) *caseOut {
 		// recipient
 		s = fresh(base)
 		good := s.M[p].To
-		s.M[p].To = lib.Pick(rng, []string{"notaddress", "", good[:len(good)-1], good[:len(good)-3] + "abc", "0x1234", good + "1"})
-		if address.CheckAddress(s.M[p].To, H) == nil && false {
-			continue
-		}
+		s.M[p].To = lib.Pick(rng, []string{"notaddress", "", good[:len(good)-1], "0x1234", good + "1"})
 		r.submitMutant("recipient", fmt.Sprintf("%s recipient %q", pos, s.M[p].To), s, true, nil, nil)
 		// blacklist
 		s = fresh(base)
@@ -579,6 +597,55 @@ func runCase(in caseIn) *caseOut {
 	return out
 }
 
+// runQuirk: empty pool at height 100; a 2-member group whose head hash is well-formed protobuf (found by varying
+// the head's nonce); member 1 expired by height. Then the same group with an ordinary head hash.
+func runQuirk(in caseIn, out *caseOut) *caseOut {
+	H := int64(100)
+	curMaxTxNum = bigTxNum
+	env := mpenv.New(mpenv.Opts{PoolSize: 16, MaxPerAcc: 4, MaxLast: 4, Queue: "simple", Height: H, BlockTime: t0})
+	defer env.Close()
+	r := &runner{rng: lib.NewRng(in.Seed), env: env, out: out, b: &builder{other: mpenv.NewKey("other", 0, false)}, wit: map[string]any{}}
+	out.Shape, out.Tier = "group2", 1
+	out.Desc = fmt.Sprintf("case %d (scripted: height %d, empty pool, flat fee)", in.Idx, H)
+	r.wit = map[string]any{"height": H, "block_time": t0, "pool_count": 0, "candidate": "group2", "scripted": "head hash grinded until it parses as protobuf"}
+	mk := func(nonce int64, expire1 int64) spec {
+		return spec{SigPos: -1, Fee: 2 * rate, M: []member{
+			{Key: mpenv.NewKey("cand", 0, false), To: mpenv.NewKey("rcpt", 0, false).Addr, Nonce: nonce, Amount: 1},
+			{Key: mpenv.NewKey("cand", 1, false), To: mpenv.NewKey("rcpt", 1, false).Addr, Nonce: 7, Amount: 2, Expire: expire1}}}
+	}
+	found := int64(-1)
+	tried := 0
+	for n := int64(1); n < 200000; n++ {
+		tried++
+		_, ms := r.b.build(mk(n, H))
+		if headerParsesAsGroup(ms[0].Header) {
+			found = n
+			break
+		}
+	}
+	out.Observed["quirk-search"] = fmt.Sprintf("head nonce %d after %d tries", found, tried)
+	if found < 0 {
+		out.Incon = "no head hash that parses as protobuf within 200000 tries"
+		return out
+	}
+	// control: ordinary head hash, member 1 expired -> must be rejected (and is)
+	ctl := found + 1
+	for {
+		_, ms := r.b.build(mk(ctl, H))
+		if !headerParsesAsGroup(ms[0].Header) {
+			break
+		}
+		ctl++
+	}
+	r.submitMutant("expired", fmt.Sprintf("member 1/2 expire height %d <= next height %d (ordinary head hash)", H, H+1), mk(ctl, H), true, nil, nil)
+	r.submitMutant("expired", fmt.Sprintf("member 1/2 expire height %d <= next height %d (head nonce %d)", H, H+1, found), mk(found, H), true, nil, nil)
+	ptx, _ := r.b.build(mk(found, 0))
+	ok, _, _ := env.SendTx(ptx)
+	out.Submissions++
+	out.ValidOK = ok
+	return out
+}
+
 func min64(a, b int64) int64 {
 	if a < b {
 		return a
@@ -629,6 +696,9 @@ func run(c *lib.Ctx) {
 	}
 	if len(cur.Cases) > 0 {
 		batches = append(batches, cur)
+	}
+	if !c.Skip(n) {
+		batches = append(batches, batchIn{Cases: []caseIn{{Idx: n, Seed: 1, Special: "expire-quirk"}}})
 	}
 	var mu sync.Mutex
 	var all []*caseOut
@@ -693,7 +763,7 @@ func run(c *lib.Ctx) {
 		if o.Idx < 3 {
 			sample = map[string]any{"case": o.Desc, "candidate": o.Shape, "mutants": o.Mutants, "pool_replies": o.Errors}
 		}
-		c.Case(fp, o.ValidOK && len(o.Mutants) >= 6, sample)
+		c.Case(fp, o.ValidOK && (len(o.Mutants) >= 6 || o.Observed["quirk-search"] != ""), sample)
 	}
 	rep := map[string][]string{}
 	for cl, m := range errTexts {
